@@ -36,7 +36,37 @@ KINDS = {
     "str": lambda i: "".join(["c06-", str(i), "-str"]),
     "int": lambda i: (1 << 80) + 12345 + i,
     "bytes": lambda i: b"c06" + bytes([65 + i]) * 7,
+    "float": lambda i: 12345.25 + i * 1e9,
+    "tuple": lambda i: (T(i), i + 1000),
+    "list": lambda i: [T(i)],
+    "smallint": lambda i: i + 3,      # immortal: a control, its count cannot move
 }
+
+
+def make_tracked(kind):
+    """'inst' -> two objects of that kind; 'int+str' -> a of the first kind, b of the second."""
+    ka, _, kb = kind.partition("+")
+    return KINDS[ka](1), KINDS[kb or ka](2)
+
+
+def canon(x, depth=0):
+    """A process-independent rendering of a result (object identities and hash order do not matter)."""
+    if depth > 6:
+        return "..."
+    if isinstance(x, (set, frozenset)):
+        return "{" + ",".join(sorted(canon(i, depth + 1) for i in x)) + "}"
+    if isinstance(x, (list, tuple)):
+        o, c = ("[", "]") if isinstance(x, list) else ("(", ")")
+        return o + ",".join(canon(i, depth + 1) for i in x) + c
+    if isinstance(x, dict):
+        return "{" + ",".join(canon(k, depth + 1) + ":" + canon(v, depth + 1) for k, v in x.items()) + "}"
+    if isinstance(x, (int, float, str, bytes, bool, T, type(None))):
+        return repr(x)
+    if hasattr(x, "__next__") or type(x).__name__ in ("dict_keys", "dict_values", "dict_items"):
+        return type(x).__name__ + canon(list(x), depth + 1)
+    if hasattr(x, "c06_fields"):
+        return type(x).__name__ + canon(x.c06_fields(), depth + 1)
+    return "<" + type(x).__name__ + ">"
 ANY = ("inst", "str", "int")
 PAD = 1000
 KEEP = []
@@ -232,7 +262,7 @@ CASES = [
 ]
 
 
-def measure(m, call, a, b, n):
+def measure(m, call, a, b, n, vals=None):
     pad = [a] * PAD + [b] * PAD
     outs = []
     gc.collect()
@@ -241,6 +271,8 @@ def measure(m, call, a, b, n):
         try:
             r = call(m, a, b)
             out = "ret"
+            if vals is not None and not vals:
+                vals.append(canon(r))
         except Exception as e:
             out = type(e).__name__
         r = None
@@ -277,6 +309,17 @@ def main():
                                   (lambda m, a, b, nm=nm, fobj=fobj, c=c: getattr(m, nm)(a, b, fobj, c)), False))
             i += 1
     import os
+    if os.path.exists(modname + "_cases.json"):
+        # table-driven families (primitive contracts, wrappers): the call is an expression over
+        # m (the module), a, b (the tracked objects) and the helpers of this file
+        with open(modname + "_cases.json") as f:
+            table = json.load(f)
+        CASES = []
+        for c in table:
+            code = compile(c["call"], c["name"], "eval")
+            CASES.append((c["name"], c["fn"], tuple(c["kinds"]),
+                          (lambda m, a, b, code=code: eval(code, {"m": m, "a": a, "b": b, "T": T, "ok": ok, "VE": VE, "KE": KE})),
+                          bool(c.get("typed"))))
     skip = set(json.loads(os.environ.get("C06_SKIP", "[]")))   # "case/kind" entries already run (or fatal) in an earlier child
     order = list(range(len(CASES)))
     rnd.shuffle(order)   # the seed only permutes the order of the cases
@@ -290,13 +333,15 @@ def main():
             elif kind == "lit_tuple":
                 a, b = m.lit_tuple(), T(0)
             else:
-                a, b = KINDS[kind](1), KINDS[kind](2)
+                a, b = make_tracked(kind)
             if "%s/%s" % (name, kind) in skip:
                 continue
             print("BEGIN %s/%s" % (name, kind), flush=True)
-            outs, delta = measure(m, call, a, b, n)
+            vals = []
+            outs, delta = measure(m, call, a, b, n, vals)
             print("RESULT " + json.dumps({"case": name, "fn": fn, "kind": kind, "outs": outs,
-                                          "delta": list(delta), "n": n, "typed": typed}), flush=True)
+                                          "delta": list(delta), "n": n, "typed": typed,
+                                          "value": vals[0] if vals else None}), flush=True)
     print("DONE", flush=True)
 
 
